@@ -245,7 +245,8 @@ func (idx *RoaringMetadataIndex) getExistenceBitmap(field string) *roaring.Bitma
 	result := roaring.New()
 	prefix := field + ":"
 	for key, bitmap := range idx.categorical {
-		if len(key) > len(prefix) && key[:len(prefix)] == prefix {
+		// >= so that an empty string value ("field:") counts as existing
+		if len(key) >= len(prefix) && key[:len(prefix)] == prefix {
 			result.Or(bitmap)
 		}
 	}
